@@ -676,3 +676,7 @@ package bits
 //@ typeinv SliceWriter swOKi
 //@ devirt SliceReader = *FixedSliceReader
 //@ devirt SliceWriter = *FixedSliceWriter
+
+//@ func (*Reader).ReadRemainingBytes
+//@   requires r != nil && (r.err == nil ==> rInv(r))
+//@   ensures r.rd == old(r.rd) && (old(r.err) != nil ==> r.err != nil)
